@@ -755,4 +755,12 @@ Proof.
   - apply IH; [|exact Hr]. rewrite E1. exact H1.
 Qed.
 
+(* the code as it is: the flags read from the source say "one cache per app" and "failed writes mark" *)
+Lemma flag_one_per_app : cache_provider_one_per_app = true. Proof. reflexivity. Qed.
+Lemma flag_write_error_marks : cache_write_error_marks = true. Proof. reflexivity. Qed.
+
+Theorem cache_transparent_x_src_proved xs : forall s, CI (one_cache s) -> Forall (fun x => op_domain (snd x)) xs ->
+  transparent_xrun cache_provider_one_per_app cache_big_values_marked cache_key_guard cache_write_error_marks s xs.
+Proof. rewrite flag_one_per_app, flag_big_marked, flag_key_guard, flag_write_error_marks. exact (cache_transparent_x_proved xs). Qed.
+
 End SeqProof.
